@@ -6,6 +6,10 @@ C17 — helper lemmas, part 2: the two machines on the fragment `W` (Fragment.le
 import CaddyModel.C17.Fragment
 import CaddyModel.C17.Lemmas
 
+-- (case-split proofs share one simp set; an argument unused in some branch is not worth a warning that
+-- drowns real errors in the build log)
+set_option linter.unusedSimpArgs false
+
 namespace CaddyModel.C17
 
 /-! ### §1 character facts -/
